@@ -18,7 +18,7 @@ def main(run: Run) -> int:
     jobs = [{"fn": "fc_step", "globals": {"OP": op}, "timeout": 300, "bound": "all fulfilled flags x all error messages (symbolic bool / Optional[str])"} for op in range(3)]
     jobs.append({"fn": "fc_leaf", "globals": {}, "timeout": 300, "bound": "symbolic (fulfilled, message, sync/async, entered text)"})
     jobs.append({"fn": "fc_empty", "globals": {}, "timeout": 100, "bound": "None and ''"})
-    fc_harness.MAXLEAVES = 4 if thorough else 3
+    fc_harness.MAXLEAVES = 3  # four-key shapes (540 x 16 assignments x 3) did not finish within 40 min in either tier; six hand-picked four-key expressions are part of the list
     n = len(fc_harness.cases())
     budget = 48 if thorough else 72  # paths per condition ~ sum over its cases of 2^keys x (2 without yields + 1 with)
     cs = fc_harness.cases()
@@ -26,7 +26,7 @@ def main(run: Run) -> int:
     for i, (_t, ks) in enumerate(cs):
         acc += (2 ** len(ks)) * 3
         if acc >= budget or i == n - 1:
-            jobs.append({"fn": "fc_glue", "globals": {"MAXLEAVES": fc_harness.MAXLEAVES, "YMAX": 1, "YMAX_EVERY": 2, "LO": lo, "HI": i + 1}, "timeout": 600 + acc, "bound": "expressions of this partition x all truth assignments (symbolic) x with/without error messages x (no yields | the first three keys complete in reverse request order" + ", every 2nd expression)"})
+            jobs.append({"fn": "fc_glue", "globals": {"MAXLEAVES": fc_harness.MAXLEAVES, "YMAX": 1, "YMAX_EVERY": 1 if thorough else 2, "LO": lo, "HI": i + 1}, "timeout": 600 + acc, "bound": "expressions of this partition x all truth assignments (symbolic) x with/without error messages x (no yields | the first three keys complete in reverse request order" + ("" if thorough else ", every 2nd expression") + ")"})
             lo, acc = i + 1, 0
     jobs.sort(key=lambda j: -j["timeout"])
     for r, j in zip(xh.run_jobs(run, "vf.harness.fc_harness", jobs), jobs):
